@@ -298,7 +298,7 @@ def oracle(c, problems, stats):
                 bad(f"ecdf(linear_interpolation) of a size-1 sample is {at_max}, the model says 0", {**sig, "law": "size_one"}, function="ecdf", method=em)
         elif em == "kernel_density" and nx == 1:
             stats["hist_size_one_skipped"] += 1  # outside the property's quantifier (size >= 2); numpy's widened bin gives 0.5
-        elif abs(at_max - 1.0) > eps:
+        elif at_max != 1.0:
             bad(f"ecdf({em}) at the sample maximum is {at_max}, not 1 (n={nx}{', constant sample' if const else ''})", sig if em == "kernel_density" else {**sig, "law": "at_max"},
                 function="ecdf", method=em, at=float(xmax), value=at_max)
         stats["ecdf_checks"] += 1
@@ -494,13 +494,123 @@ def oracle_purity(c, problems, stats):
         bad("quantile maps: repeating the calls on the same arrays changes the result", {"law": "call_sequence", "function": "qmap"}, function="qmap")
 
 
+def oracle_endpoints(n, rng, problems, stats):
+    """the end points, exactly, for a tie-free sample of size n: ecdf == 1.0 at and above the maximum, == 0.0 below the
+    minimum (float evaluation of k/n must not miss them), iecdf(0/1) == min/max, quantile map of max x == max y for all
+    27 pairs, and the equal-size identity on the whole sample"""
+    from ibicus.utils import _math_utils as M
+    from ibicus.utils import _utils as U
+
+    x = np.array(rng.sample(range(-2 * n, 2 * n + 1), n), dtype=float) / 4.0
+    y = np.array(rng.sample(range(-3 * n, 3 * n + 1), n), dtype=float) / 8.0 + 100.0
+    info = {"n": n, "x": x.tolist() if n <= 64 else {"first": x[:8].tolist(), "python_seed_of_case": f"random.Random({C.seed()} * 7 + {n}) -> sample(range(-2n, 2n+1), n)/4"},
+            "y": y.tolist() if n <= 64 else {"first": y[:8].tolist()}, "generator": "endpoints"}
+
+    def bad(desc, sig):
+        problems.append((desc, info, {**sig, "n_class": "endpoints"}))
+
+    xmax, xmin, ymax, ymin = x.max(), x.min(), y.max(), y.min()
+    pts = np.array([xmax, xmax + 0.25, 1e30, xmin - 0.125, -1e30])
+    for em in EM:
+        if n == 1 and em != "step_function":
+            continue  # size 1: stated separately (linear -> 0), histogram of a single value is the F15 case
+        e = quiet(M.ecdf, x, pts, em)
+        if not (e[0] == 1.0 and e[1] == 1.0 and e[2] == 1.0):
+            bad(f"ecdf({em}) of a sample of size {n} is {e[:3].tolist()} at / above the sample maximum, not exactly 1", {"method": em, "law": "at_max"})
+        if not (e[3] == 0.0 and e[4] == 0.0):
+            bad(f"ecdf({em}) of a sample of size {n} is {e[3:].tolist()} below the sample minimum, not exactly 0", {"method": em, "law": "below_min"})
+    if n >= 2:
+        for im in IM:
+            q01 = quiet(M.iecdf, y, np.array([0.0, 1.0]), im)
+            if q01[0] != ymin or q01[1] != ymax:
+                bad(f"iecdf({im}), n={n}: p=0/1 give {q01.tolist()}, sample min/max {float(ymin)}/{float(ymax)}", {"method": im, "law": "endpoints"})
+        pairs = [(em, im) for em in EM for im in IM] if n % 7 == 0 or n > 400 else [(em, "inverted_cdf") for em in EM] + [("step_function", im) for im in IM]
+        for em, im in pairs:
+            v = quiet(M.quantile_map_non_parametically, x, y, np.array([xmax, xmax + 1.0]), em, im)
+            if v[0] != ymax or v[1] != ymax:
+                bad(f"quantile map ({em},{im}), n={n}: the source maximum is mapped to {v.tolist()}, the target maximum is {float(ymax)}", {"method": em, "iecdf": im, "law": "qmap_at_max"})
+        want = quiet(U.sort_array_like_another_one, y, x)
+        for em, im in EXACT_PAIRS:
+            if (em, im) in FLOAT_FRAGILE_PAIRS:
+                continue
+            out = quiet(M.quantile_map_x_on_y_non_parametically, x, y, "normal", em, im)
+            exact = (em, im) in EXACT_BITWISE_PAIRS
+            okk = np.array_equal(out, want) if exact else np.all(np.abs(out - want) <= 1e-9 * (1 + np.abs(y).max()))
+            if not okk:
+                i = int(np.argmax(np.abs(out - want)))
+                bad(f"equal sizes ({em},{im}), n={n}: x[{i}] = {x[i]} (rank {int((x < x[i]).sum())} of {n}) is mapped to {out[i]} instead of the target's order statistic {want[i]}",
+                    {"method": em, "iecdf": im, "law": "equal_sizes"})
+    stats["endpoint_sizes"] += 1
+
+
+def oracle_inplace_sequences(c, problems, stats):
+    """call, update one argument IN PLACE (same array object: a -= c, a *= 2, a[i] = v), call again: the second result
+    must be what a call on fresh copies of the updated arrays gives (no state may survive between calls)"""
+    from ibicus.utils import _math_utils as M
+    from ibicus.utils import _utils as U
+
+    cj = case_json(c)
+    x0, y0, y20, vals0, ps0 = c["x"], c["y"], c["y2"], c["vals"], c["ps"]
+    k = c["k"]
+    em = EM[k % 3]
+
+    def call(f, *args):
+        with warnings.catch_warnings(), np.errstate(all="ignore"):
+            warnings.simplefilter("ignore")
+            return np.asarray(f(*args))
+
+    def update(a, kind):
+        if kind == "prob":
+            a *= 0.5
+        elif a.dtype.kind == "i":
+            a += 3
+            a[0] -= 7
+        else:
+            a *= 2
+            a -= a.dtype.type(2.5 * c["scale"])
+            a[a.size // 2] = a[0] + a.dtype.type(0.75 * c["scale"])
+
+    specs = []
+    for im in ("inverted_cdf", IM[1 + k % 8]):
+        specs += [
+            (f"iecdf[{im}]", M.iecdf, lambda im=im: [y0.copy(), ps0.copy(), im], {0: "val", 1: "prob"}),
+            (f"quantile_map_non_parametically[{em},{im}]", M.quantile_map_non_parametically, lambda im=im: [x0.copy(), y0.copy(), vals0.copy(), em, im], {0: "val", 1: "val", 2: "val"}),
+            (f"quantile_map_non_parametically_with_constant_extrapolation[{em},{im}]", M.quantile_map_non_parametically_with_constant_extrapolation,
+             lambda im=im: [x0.copy(), y0.copy(), vals0.copy(), em, im], {0: "val", 1: "val", 2: "val"}),
+            (f"quantile_map_x_on_y_non_parametically[{em},{im}]", M.quantile_map_x_on_y_non_parametically, lambda im=im: [x0.copy(), y0.copy(), "normal", em, im], {0: "val", 1: "val"}),
+        ]
+    specs += [(f"ecdf[{e}]", M.ecdf, (lambda e=e: [x0.copy(), vals0.copy(), e]), {0: "val", 1: "val"}) for e in EM]
+    specs += [("IECDF", lambda a, p: M.IECDF(a)(p), lambda: [y0.copy(), ps0.copy()], {0: "val"}),
+              ("sort_array_like_another_one", U.sort_array_like_another_one, lambda: [x0.copy(), y20.copy()], {0: "val", 1: "val"}),
+              ("quantile_map_x_on_y_non_parametically[isimipv3.0]", M.quantile_map_x_on_y_non_parametically, lambda: [x0.copy(), y0.copy(), "isimipv3.0"], {0: "val", 1: "val"})]
+    for name, f, mk, positions in specs:
+        for i, kind in positions.items():
+            args = mk()
+            if c["dtype"] == "float32" and c["scale"] > 1 and "kernel_density" in name:
+                continue  # updates may make a float32 sample of huge magnitude constant: np.histogram raises (F15 variant)
+            try:
+                call(f, *args)
+                update(args[i], kind)
+                got = call(f, *args)
+                want = call(f, *[a.copy() if isinstance(a, np.ndarray) else a for a in args])
+            except ValueError:
+                stats["inplace_sequence_skipped_error"] += 1
+                continue
+            stats["inplace_sequence_checks"] += 1
+            if not (got.shape == want.shape and np.array_equal(got, want, equal_nan=True)):
+                j = int(np.argmax(got != want)) if got.shape == want.shape else 0
+                problems.append((f"{name}: after an in-place update of argument #{i + 1} (same array object) the second call returns {got.ravel()[j:j + 3].tolist()} where a call on a "
+                                 f"fresh copy of the updated arrays returns {want.ravel()[j:j + 3].tolist()} — stale state survives between calls",
+                                 {**cj, "function": name, "updated_argument": i + 1}, {"law": "inplace_sequence", "function": name.split("[")[0]}))
+
+
 # ------------------------------------------------------------------ the check
 def run(tier, res, force_search=False):
     import collections
 
     rng = random.Random(C.seed() * 104729 + 16)
     res.rule = ("cases = (x, y, y2, evaluation points, probabilities) from one PRNG (VERIF_SEED): sizes 1..12, values k/64 with ties / tie-free / constant, "
-                "scaled exactly by 1, 2^40 or 2^-40; source sample and values as float64 (60%), float32 (20%) or integer-valued int64 (20%), target always float64; every case runs all 3 ecdf x 9 iecdf methods; non-trivial = sample has >= 2 distinct values; "
+                "scaled exactly by 1, 2^40 or 2^-40; source sample and values as float64 (60%), float32 (20%) or integer-valued int64 (20%), target always float64; plus every sample size 1..400 and 1000, 4096, 10007, 20001 (tie-free) for the exact end-point laws; every case runs all 3 ecdf x 9 iecdf methods; non-trivial = sample has >= 2 distinct values; "
                 "distinct = distinct (size x, size y, kind, scale, ties in x, ties in y) classes")
     res.trusted = C.BASE_TRUSTED + [
         "numpy's np.sort/argsort/quantile/interp/linspace/histogram, statsmodels' ECDF, scipy's rv_histogram/rankdata are modelled (Model/Stats.lean), not verified; "
@@ -528,6 +638,7 @@ def run(tier, res, force_search=False):
         res.count((x.size, y.size, c["kind_x"], c["scale"], c["dtype"], np.unique(x).size < x.size, np.unique(y).size < y.size),
                   np.unique(x).size >= 2, sample={"x": x.tolist()[:6], "y": y.tolist()[:6], "scale": c["scale"], "n_vals": int(c["vals"].size), "n_ps": int(c["ps"].size)})
         oracle_purity(c, problems, stats)  # first: works on copies, before any helper has seen the case's own arrays
+        oracle_inplace_sequences(c, problems, stats)
         snap = {a: c[a].tobytes() for a in ("x", "y", "y2", "vals", "ps")}
         correspondence(c, corr)
         oracle(c, problems, stats)
@@ -547,7 +658,14 @@ def run(tier, res, force_search=False):
         res.count((c["x"].size, c["y"].size, c["kind_x"], c["scale"], c["dtype"], np.unique(c["x"]).size < c["x"].size, np.unique(c["y"]).size < c["y"].size),
                   np.unique(c["x"]).size >= 2)
         oracle_purity(c, problems, stats)
+        if k % 4 == 0:
+            oracle_inplace_sequences(c, problems, stats)
         oracle(c, problems, stats)
+    # every sample size 1..400 (the float evaluation of k/n at the end points depends on n) and a few long ones
+    sizes = list(range(1, 401)) + [1000, 4096, 10007, 20001] + ([36500, 65536] if tier == "thorough" else [])
+    for n in sizes:
+        oracle_endpoints(n, random.Random(C.seed() * 7 + n), problems, stats)
+        res.count(("endpoints", n), n >= 2)
     res.extra["oracle_stats"] = dict(stats)
     res.extra["exact_pairs_checked"] = [list(p) for p in EXACT_PAIRS]
 
@@ -574,12 +692,19 @@ def replay(data):
     if not fi:
         print("replay without failing input:", data.get("broken"))
         return 1
+    if fi.get("generator") == "endpoints":
+        problems = []
+        oracle_endpoints(int(fi["n"]), random.Random(C.seed() * 7 + int(fi["n"])), problems, collections.Counter())
+        for desc, _, sig in problems:
+            print("REPRODUCED:", desc[:300], sig)
+        return 1 if problems else 0
     dt = np.dtype(fi.get("dtype", "float64"))
     c = dict(k=0, scale=fi["scale"], kind_x="replay", dtype=str(dt), x=np.array(fi["x"], dtype=dt), y=np.array(fi["y"], dtype=float), y2=np.array(fi["y2"], dtype=dt),
              vals=np.array(fi["vals"], dtype=dt), ps=np.array(fi["ps"], dtype=float))
     problems = []
     oracle(c, problems, collections.Counter())
     oracle_purity(c, problems, collections.Counter())
+    oracle_inplace_sequences(c, problems, collections.Counter())
     want = data.get("signature", {})
     hits = [p for p in problems if all(p[2].get(k) == v for k, v in want.items())]
     for desc, _, sig in hits:
